@@ -66,7 +66,7 @@ def _search_blocks_for_fe(input_path: str, thread_idx: int, block_starts: List[i
             # have been processed by another thread with the `elif len(data) >=
             # _MAX_FE_MSG_SIZE_BYTES` branch.
             elif block_offset == 0 or len(data) >= _MAX_FE_MSG_SIZE_BYTES:
-                word_count = int(len(data) / 2) - 1
+                word_count = max(int(len(data) / 2) - 1, 0)
             # If the amount left is less then the overlap space, this data will
             # already have been processed by another thread with the `elif
             # len(data) >= _MAX_FE_MSG_SIZE_BYTES` branch.
